@@ -357,7 +357,9 @@ func constructMatchStyleRegex(s *Segment) (*regexp.Regexp, []string, error) {
 				return nil, nil, errors.Wrapf(err, "compile regexp near position %d", e.Pos.Offset)
 			}
 			buf.WriteString("(")
-			if expr.MaxCap() > 0 {
+			// A quoted section (\Q) may be left open until the end of the expression, in
+			// which case the raw text would swallow the closing parenthesis.
+			if expr.MaxCap() > 0 || strings.Contains(*p.Value.Regex, `\Q`) {
 				buf.WriteString(stripCaptures(expr).String())
 			} else {
 				buf.WriteString(*p.Value.Regex)
